@@ -5,7 +5,7 @@ from ..ref import P, L, to32, le
 
 REQUIRED = ['n=0', 'n=1', 'straus', 'pippenger', 'corrupt:none', 'corrupt:msg', 'corrupt:key', 'corrupt:R', 'corrupt:S',
             'corrupt:S+l', 'corrupt:R-offcurve', 'shuffled', 'duplicated', 'len-mismatch', 'pos:first', 'pos:last', 'many', 'cancelling', 'dup-corrupted',
-            'crafted:R-identity', 'crafted:A-identity', 'crafted:R-undecodable-crafted-S', 'adaptive-shift', 'z-observed', 'z-sensitivity:msg', 'z-sensitivity:key', 'z-sensitivity:R', 'z-sensitivity:S']
+            'huge', 'crafted:R-identity', 'crafted:A-identity', 'crafted:R-undecodable-crafted-S', 'adaptive-shift', 'z-observed', 'z-sensitivity:msg', 'z-sensitivity:key', 'z-sensitivity:R', 'z-sensitivity:S']
 
 
 def okerr(x):
@@ -304,14 +304,33 @@ def gen(ctx, sizes, reps):
                 ctx.add('sig.batch', lst(m), '[]', '[]', expect=['err', 'err'], cls='len-mismatch')
 
 
-def make(seed, size, sizes=(0, 1, 2, 3, 7), reps=1):
+def huge(ctx, n):
+    """thousands of entries (copies of a few valid ones, which batch verification must treat like any others): sums of
+    that many scalars, multiscalar inputs of twice that many terms; once all valid, once with one corrupted copy"""
+    rng = ctx.rng
+    seeds = [vals.rb(rng, 32) for _ in range(3)]
+    ents = []
+    for sd in seeds:
+        m_ = vals.rb(rng, 3)
+        ents.append(Entry(ref.ed_public(sd), m_, ref.ed_sign(sd, m_)))
+    batch = [ents[i % 3] for i in range(n)]
+    emit(ctx, batch, ['huge', 'corrupt:none'])
+    bad = list(batch)
+    pos = rng.choice([0, n // 2, n - 1])
+    bad[pos] = Entry(batch[pos].key, batch[pos].msg, batch[pos].sig[:32] + to32((le(batch[pos].sig[32:]) + 1) % L), ok=False)
+    emit(ctx, bad, ['huge', 'corrupt:S'])
+
+
+def make(seed, size, sizes=(0, 1, 2, 3, 7), reps=1, huge_n=0):
     ctx = core.Ctx(seed, prefix='b%d_' % (seed % 100000))
     gen(ctx, list(sizes), reps)
+    if huge_n:
+        huge(ctx, huge_n)
     return ctx
 
 
-def task(prop, seed, size, cfgbins, sizes=(0, 1, 2, 3, 7), reps=1):
-    ctx = make(seed, size, sizes=sizes, reps=reps)
+def task(prop, seed, size, cfgbins, sizes=(0, 1, 2, 3, 7), reps=1, huge_n=0):
+    ctx = make(seed, size, sizes=sizes, reps=reps, huge_n=huge_n)
     return core.run_and_judge(prop, ctx, cfgbins)
 
 
@@ -336,6 +355,9 @@ def run(prop, tier, seed, t0):
                                                  ((399,), 2), ((400,), 2), ((93, 97), 2), ((120, 300), 1), ((16, 33, 50), 6)] * 6
     for i, (sz, reps) in enumerate(groups):
         tasks.append(('vlib.props.c13', 'task', prop, seed * 1000 + i, 0, cb, {'sizes': sz, 'reps': reps}))
+    # one batch of thousands of entries (on the native and the serial builds only: it is about the scalar sums and the input size)
+    big_cb = [c for c in cb if c[0] in ('simd-rel@avx2', 'serial64-rel', 'serial32-rel')]
+    tasks.append(('vlib.props.c13', 'task', prop, seed * 1000 + 900, 0, big_cb, {'sizes': (), 'reps': 0, 'huge_n': 8300 + rs.randrange(500) if tier == 'quick' else 17000}))
     m = core.run_tasks(tasks)
     return core.finish(prop, tier, seed, t0, m,
                        rule='batches of honest Ed25519 signatures at sizes on both sides of the Straus/Pippenger and window switches, '
